@@ -85,7 +85,11 @@ Finish(s) == /\ done = <<>> /\ Len(stack) = 1
 Next == \/ \E j \in 1..Len(Leaves) : PushLeaf(j) /\ (G = "G3" => ~(stack # <<>> /\ HasForAll(Top)))
         \/ ApplyNot("fn") /\ (G = "G3" => ~HasForAll(Top))
         \/ \E kind \in {"and", "or"} : ApplyBin(kind, "fn")
-        \/ \E ue \in {1, 2} : ApplyForAll(IF ue = 1 THEN V(2) ELSE At(V(2), "n"))
+        \/ \E ue \in 1..4 : ApplyForAll(CASE ue = 1 -> V(2)
+                                            [] ue = 2 -> At(V(2), "n")
+                                            \* the universal values are the solutions of a sub-query
+                                            [] ue = 3 -> SubE(2, CmpC("ge", At(V(2), "n"), LitI(1)), "an")
+                                            [] ue = 4 -> At(SubE(2, CmpC("ne", At(V(2), "m"), LitI(0)), "an"), "n"))
         \/ \E j \in 1..Len(OuterG3), side \in {"l", "r"} : PushOuter(j, side)
         \/ \E s \in 1..Len(Selections) : Finish(s)
 Spec == Init /\ [][Next]_vars
